@@ -30,18 +30,26 @@ let c19 (toks : string list) : string =
   | ["cfdec"; f; d] -> show_cf (ColorFormat.cf_decode (n_of_int (int_of_string f)) (parse_b d))
   | ["cfidx"; f; d; p] -> show_cf (ColorFormat.cf_decode_indexed (n_of_int (int_of_string f)) (parse_b d) (parse_b p))
   | ["color"; fmt; w; h; p] ->
-    both (fun m -> Etc1.decode_pixel_data m (parse_b p) (n_of_int (int_of_string w)) (n_of_int (int_of_string h))
+    (* the MODED model (every machine operation in the Machine monad), run in both modes *)
+    both (fun m -> Etc1M.decode_pixel_data_m m (parse_b p) (n_of_int (int_of_string w)) (n_of_int (int_of_string h))
                      (n_of_int (int_of_string fmt)))
   | ["etc"; a; w; h; p] ->
-    both (fun m -> Etc1.etc1_decode m (parse_b p) (n_of_int (int_of_string w)) (n_of_int (int_of_string h)) (a = "1"))
+    both (fun m -> Etc1M.etc1_decode_m m (parse_b p) (n_of_int (int_of_string w)) (n_of_int (int_of_string h)) (a = "1"))
   | ["rgb5a3"; d] ->
-    (match Pixel.rgb5a3_decode (parse_b d) with
-     | Machine.Ok px -> "ok " ^ show_b (Pixel.flatten px)
-     | Machine.Err _ -> "err"
-     | Machine.Panic _ -> "PANIC")
+    both (fun m -> match PixelM.rgb5a3_decode_m m (parse_b d) with
+                   | Machine.Ok px -> Machine.Ok (Pixel.flatten px)
+                   | Machine.Err e -> Machine.Err e
+                   | Machine.Panic p -> Machine.Panic p)
   | ["idx"; d; p] -> show_out (Pixel.decode_indexed_ci8 (parse_b d) (parse_b p))
   | ["pal"; w; h; img; pal] ->
-    show_out (Pixel.tpl_ci8_image (parse_b pal) (parse_b img) (n_of_int (int_of_string w)) (n_of_int (int_of_string h)))
+    both (fun m -> PixelM.tpl_ci8_image_m m (parse_b pal) (parse_b img) (n_of_int (int_of_string w)) (n_of_int (int_of_string h)))
+  | ["ctpkprobe"; fmt; w; h; len] ->
+    (* the integer model of the binary32 size product, formats 10 / 11 only *)
+    if fmt = "10" || fmt = "11" then
+      (match PixelM.ctpk_probe (n_of_int (int_of_string fmt)) (n_of_int (int_of_string w)) (n_of_int (int_of_string h)) (n_of_int (int_of_string len)) with
+       | Some n -> "ok " ^ dec_of_n n
+       | None -> "err")
+    else "skip"
   | ("bigcolor" | "bigetc" | "bigpal") :: _ -> "skip"
   | _ -> failwith "c19: bad case"
 
